@@ -160,6 +160,78 @@ fn with_hints(rng: &mut Rng, w: usize, (s, e, st): (i128, i128, u64), hints: boo
     Dom { w, s, e, st, u, l, d }
 }
 
+fn gcd_u128(mut a: u128, mut b: u128) -> u128 {
+    while b != 0 {
+        let t = a % b;
+        a = b;
+        b = t;
+    }
+    a
+}
+
+/// two `u64` strides whose least common multiple lies next to the `u64` overflow boundary (just below,
+/// exactly `u64::MAX`, just above) — the region where the `i128` chinese-remainder products are largest
+fn boundary_strides(rng: &mut Rng) -> (u64, u64) {
+    let m = u64::MAX as u128;
+    match rng.below(10) {
+        // fixed shapes: factors of 2^64-1 = 3*5*17*257*641*65537*6700417, powers of two, 2^32±k
+        0 => {
+            let f = [3u64, 5, 17, 257, 641, 65537, 6700417, 4294967295, 4294967297, 0x5555555555555555, 0x3333333333333333];
+            let a = *rng.pick(&f);
+            let b = if rng.chance(1, 2) { u64::MAX / a } else { u64::MAX };
+            if rng.chance(1, 2) { (a, b) } else { (b, a) }
+        }
+        1 => {
+            let k = 1 + rng.below(63);
+            let a = 1u64 << k;
+            let b = ((1u64 << (64 - k)) - 1).wrapping_add(2 * rng.below(2)) | 1; // 2^(64-k) ∓ 1, odd
+            if rng.chance(1, 2) { (a, b) } else { (b, a) }
+        }
+        2 => {
+            let a = (1u64 << 32).wrapping_add(rng.below(9)).wrapping_sub(4);
+            let b = (1u64 << 32).wrapping_add(rng.below(9)).wrapping_sub(4);
+            (a, b)
+        }
+        3 => {
+            let a = u64::MAX - rng.below(4);
+            let b = *rng.pick(&[1u64, 2, 3, 5, u64::MAX, u64::MAX - 1, 1 << 63, (1 << 63) + 1, (1 << 63) - 1]);
+            if rng.chance(1, 2) { (a, b) } else { (b, a) }
+        }
+        // g*p and g*q with g*p*q = 2^64 + delta, delta small
+        _ => {
+            let g = match rng.below(4) { 0 => 1, 1 => 1 + rng.below(8) as u128, 2 => 1u128 << rng.below(20), _ => 1 + (rng.next() as u128 % 100_000) };
+            let pbits = 1 + rng.below(62);
+            let p = (1 + (rng.next() as u128 % (1u128 << pbits))).min(m / g);
+            let target = (m as i128 + 1 + rng.below(7) as i128 - 4 - if rng.chance(1, 3) { (rng.next() % 1_000_000) as i128 } else { 0 }) as u128;
+            let mut q = (target / (g * p)).max(1);
+            if rng.chance(1, 3) { q += 1; }
+            // make p and q co-prime so that the lcm is really g*p*q
+            let mut tries = 0;
+            while gcd_u128(p, q) != 1 && tries < 8 {
+                if q > 1 && rng.chance(1, 2) { q -= 1 } else { q += 1 };
+                tries += 1;
+            }
+            let (a, b) = ((g * p).min(m) as u64, (g * q).min(m) as u64);
+            if rng.chance(1, 2) { (a.max(1), b.max(1)) } else { (b.max(1), a.max(1)) }
+        }
+    }
+}
+
+/// a 64-bit value of mixed sign, often next to the `i64` bounds
+fn boundary_value(rng: &mut Rng) -> i128 {
+    let lo = smin(64);
+    let hi = smax(64);
+    match rng.below(8) {
+        0 => lo + rng.below(4) as i128,
+        1 => hi - rng.below(4) as i128,
+        2 => -1 - rng.below(3) as i128,
+        3 => rng.below(3) as i128,
+        4 => lo + (rng.next() >> 1) as i128 % 1_000_000_007,
+        5 => hi - (rng.next() >> 1) as i128 % 1_000_000_007,
+        _ => rnd_val(rng, 64),
+    }
+}
+
 fn replay(out: &mut Out, lines: Vec<String>) {
     for line in lines {
         let v: Value = serde_json::from_str(&line).expect("replay line");
@@ -209,7 +281,8 @@ fn main() {
         &args,
         "well-formed strided intervals with and without widening hints: 1-byte values against bounds (all kinds) and intersection \
          partners, sampled 2/4/8-byte values (bounds next to members/hints/sign boundaries; intersection partners built around a \
-         common member, co-prime / power-of-two / huge strides), DataDomain values with relative targets; non-trivial = refinement \
+         common member, co-prime / power-of-two / huge strides; 8-byte partners whose strides have an lcm just below / at / \
+         above u64::MAX with start values of mixed sign next to the i64 bounds), DataDomain values with relative targets; non-trivial = refinement \
          is satisfiable; distinct by (kind, inputs)",
     );
     if let Some(lines) = args.replay_lines() {
@@ -223,6 +296,7 @@ fn main() {
     let nw = args.num("valsw", 4000, 40000);
     let ni8 = args.num("isect8", 20000, 200000);
     let niw = args.num("isectw", 10000, 200000);
+    let nib = args.num("isectb", 8000, 150000);
     // bounds, 1-byte
     for i in 0..n8 {
         let a = rnd_dom(&mut rng, 8, i % 2 == 0);
@@ -296,6 +370,27 @@ fn main() {
             (with_hints(&mut rng, w, iv, i % 3 == 0), vec![x])
         };
         emit_isect(&mut out, &a, &b, &wit, cap.min(32));
+    }
+    // intersections, 8 byte, strides whose lcm is next to the u64 overflow boundary (where the i128
+    // products of the chinese-remainder computation are largest), start values near the i64 bounds
+    for i in 0..nib {
+        let (sa, sb) = boundary_strides(&mut rng);
+        let lcm = (sa as u128 / gcd_u128(sa as u128, sb as u128)) * sb as u128;
+        out.count(if lcm <= u64::MAX as u128 { "isect-boundary:lcm-fits" } else { "isect-boundary:lcm-overflow" });
+        if lcm <= u64::MAX as u128 && lcm >= (1u128 << 63) { out.count("isect-boundary:lcm-top-bit"); }
+        let x = boundary_value(&mut rng);
+        let iva = interval_around(&mut rng, 64, x, sa);
+        let a = with_hints(&mut rng, 64, iva, i % 4 == 0);
+        // the partner contains x, or (1 in 5) a value off the common residue class
+        let x2 = if rng.chance(1, 5) {
+            let d = *rng.pick(&[1i128, -1, 2, gcd_u128(sa as u128, sb as u128) as i128, sa as i128, -(sb as i128)]);
+            sv(&bv(64, x.wrapping_add(d)))
+        } else { x };
+        let ivb = interval_around(&mut rng, 64, x2, sb);
+        let b = with_hints(&mut rng, 64, ivb, i % 4 == 1);
+        let wit = if a.s <= x && x <= a.e && b.s <= x && x <= b.e { vec![x] } else { vec![] };
+        emit_isect(&mut out, &a, &b, &wit, 16);
+        if i % 3 == 0 { emit_isect(&mut out, &b, &a, &wit, 16); }
     }
     if args.tier == "thorough" {
         // all 1-byte intervals x all 256 bounds x all kinds would be 260 M cases; run every interval
